@@ -54,7 +54,29 @@ def t_atoms():
         atoms.append(f"for (int i = 0; i < 2; i += 1) {{ write('l'); if (i == 0) {{ continue; }} {a} }}")
     for a in T_BASE:
         atoms.append(f"for (int i = 0; i < 2; i += 1) {{ if (i == 1) {{ break; }} {a} write('m'); }}")
-    return atoms
+    return atoms + pl_atoms()
+
+
+# preempt blocks inside loops inside try bodies: every way a preempt body can end (return / break / continue / fall through, alone
+# and behind a condition that hides one of them from an exit-mode analysis) x where defeat comes from (in the loop, after it, both)
+PL_BODIES = [
+    "write('q'); return;", "write('q'); break;", "write('q'); continue;", "write('q'); if (i == 0) { continue; } return;", "write('q'); if (i == 0) { continue; } break;",
+    "write('q'); if (i == 1) { break; } return;", "write('q'); if (x == 1) { return; }", "write('q'); if (i == 0) { continue; } write('w');", "write('q'); x += 1;",
+    "write('q'); if (i < 2) { continue; } return;", "write('q'); while (i < 2) { i += 1; continue; } return;",
+]
+PL_INNER = ["", "!truth_is_defeat(x == 1);", "!truth_is_defeat(i == x);", "!is_defeat();", "!truth_is_defeat(i == 2);"]
+PL_AFTER = ["", "!truth_is_defeat(x == 2);", "!is_defeat();"]
+
+
+def pl_atoms():
+    out = []
+    for pb in PL_BODIES:
+        for inner in PL_INNER:
+            for after in PL_AFTER:
+                if not inner and not after:
+                    continue
+                out.append(f"for (int i = 0; i < 3; i += 1) {{ write('l'); preempt {{ {pb} }} write('m'); {inner} }} write('o'); {after}")
+    return out
 
 
 T_HBODIES = [
@@ -70,7 +92,8 @@ T_BATCH = 8
 
 def family_T(tier):
     atoms = t_atoms()
-    n = len(atoms)
+    n_all = len(atoms)
+    n = n_all - len(pl_atoms())
     nb = len(T_BASE)
     if tier == 'thorough':
         bodies = [(i,) for i in range(n)] + [(i, j) for i in range(n) for j in range(n)]
@@ -92,6 +115,10 @@ def family_T(tier):
         for h in ('undo', 'stop'):
             for hb in (1, 2, 3):
                 cases.append((b, h, hb))
+    for i in range(n, n_all):
+        for h in ('undo', 'stop'):
+            for hb in ((0, 1) if tier == 'thorough' or i % 2 else (0,)):
+                cases.append(((i,), h, hb))
     return [('T', cases[i:i + T_BATCH]) for i in range(0, len(cases), T_BATCH)]
 
 
